@@ -255,14 +255,35 @@ func init() {
 		if err != nil {
 			return "", err
 		}
-		if !strings.Contains(c34Norm(c34Print(p, is.Body)), "remain: contentLength,") {
-			return "", fmt.Errorf("RoundTrip: bodyReader is not initialised with remain: contentLength")
+		if !strings.Contains(c34Norm(c34Print(p, is.Body)), "remain: bodyLen,") {
+			return "", fmt.Errorf("RoundTrip: bodyReader is not initialised with remain: bodyLen")
 		}
-		cond, err = c34Subst("RoundTrip body decision", c34Print(p, is.Cond), "req.Method != http.MethodHead", "!isHead", "len(trailer)", "ntrailer")
+		cond, err = c34Subst("RoundTrip body decision", c34Print(p, is.Cond), "len(trailer)", "ntrailer")
 		if err != nil {
 			return "", err
 		}
-		add("cliHasBody", "func cliHasBody(contentLength int64, isHead bool, ntrailer int) bool { return "+cond+" }", TransOpts{BoolResult: true})
+		add("cliHasBody", "func cliHasBody(bodyLen int64, ntrailer int) bool { return "+cond+" }", TransOpts{BoolResult: true})
+		// bodyLen := contentLength; if <HEAD or 304> { bodyLen = 0 } — directly before the decision
+		is2, err := c34OneIf(p, "clientConn.RoundTrip", "bodyLen = 0")
+		if err != nil {
+			return "", err
+		}
+		if len(is2.Body.List) != 1 || is2.Else != nil {
+			return "", fmt.Errorf("RoundTrip: `bodyLen = 0` guard has an unexpected shape")
+		}
+		{
+			fd, _ := p.Func("clientConn.RoundTrip")
+			txt := c34Norm(c34Print(p, fd.Body))
+			i0 := strings.Index(txt, "bodyLen := contentLength if "+c34Norm(c34Print(p, is2.Cond))+" { bodyLen = 0 } if "+c34Norm(c34Print(p, is.Cond))+" {")
+			if i0 < 0 || strings.Count(txt, "bodyLen =") != 1 || strings.Count(txt, "bodyLen :=") != 1 {
+				return "", fmt.Errorf("RoundTrip: `bodyLen := contentLength; if … { bodyLen = 0 }; if bodyLen …` sequence not found")
+			}
+		}
+		cond, err = c34Subst("RoundTrip bodyLen", c34Print(p, is2.Cond), "req.Method == http.MethodHead", "isHead", "http.StatusNotModified", "304")
+		if err != nil {
+			return "", err
+		}
+		add("cliBodyLen", "func cliBodyLen(contentLength int64, isHead bool, statusCode int) int64 { bodyLen := contentLength\n if "+cond+" { bodyLen = 0 }\n return bodyLen }", TransOpts{})
 
 		// ---- responseWriter
 		fd, err := p.Func("responseWriter.trimWriteLocked")
